@@ -309,14 +309,12 @@ pub fn check(case: &Case, ctx: &mut Ctx) {
                 if !has || in_list.is_none() {
                     ctx.fail("settled_accepted_write_unlisted", format!("key {ki}: accepted write not listed (has_key={has}, in list={})", in_list.is_some()));
                 }
+                // (which RecordType the listing carries and how the store lays its files out are not
+                // part of the statement: measured as labels only)
                 if let (Some(t), Some(exp)) = (&in_list, expected_record_type(v)) {
-                    if *t != exp {
-                        ctx.fail("settled_listed_type_wrong", format!("key {ki}: listed as {t:?}, expected {exp:?}"));
-                    }
+                    ctx.label_if(*t != exp, "listed_type_differs_from_cmd_rs_derivation");
                 }
-                if !sim.storage_dir().join(hex::encode(key.as_ref())).is_file() {
-                    ctx.fail("settled_file_missing", format!("key {ki}: no record file after settling"));
-                }
+                ctx.label_if(!sim.storage_dir().join(hex::encode(key.as_ref())).is_file(), "no_hex_named_file_for_held_key");
             }
             Last::Removed => {
                 if got.is_some() {
@@ -338,17 +336,14 @@ pub fn check(case: &Case, ctx: &mut Ctx) {
             }
         }
     }
-    for f in sim.files() {
-        let known = keys.iter().position(|k| hex::encode(k.as_ref()) == f);
-        match known {
-            None => ctx.fail("stray_file", format!("file {f} in the storage dir belongs to no key of the history")),
-            Some(ki) => {
-                if !tainted[ki] && !matches!(last[ki], Last::PutOk(_)) {
-                    ctx.fail("file_left_for_absent_key", format!("key {ki}: record file exists although the key's last operation was {:?}", match &last[ki] { Last::Removed => "remove", _ => "nothing" }));
-                }
-            }
+    // files: layout is the store's business; only count what a hex-per-key layout would leave behind
+    let stray = sim.files().iter().filter(|f| {
+        match keys.iter().position(|k| hex::encode(k.as_ref()) == **f) {
+            None => true,
+            Some(ki) => !tainted[ki] && !matches!(last[ki], Last::PutOk(_)),
         }
-    }
+    }).count();
+    ctx.label_if(stray > 0, "file_left_for_absent_key(observation)");
 
     ctx.label_if(overwrite, "overwrite");
     ctx.label_if(remove_acked, "remove_of_listed_key");
